@@ -5,5 +5,7 @@ CONSTANTS
   SearchArg = "index_plus_1"
   Side = "left"
   Subtract = "prev"
-INVARIANTS TypeOK CursorIsConcat GetIsConcat EndRaises ViewsAgree ConcatIsBijection SearchSortedIsInsertionPoint
+  CacheCum = "none"
+  MazesBuild = "atomic"
+INVARIANTS TypeOK CursorIsConcat GetIsConcat EndRaises MazesNeverTruncated MazesAgreeWithLen ViewsAgree ConcatIsBijection SearchSortedIsInsertionPoint
 CHECK_DEADLOCK FALSE
